@@ -643,6 +643,9 @@ def _lock_exit(interp, st, cm, out):
 
 LOCKT.cm_enter = _lock_enter
 LOCKT.cm_exit = _lock_exit
+# Lock.locked(): only says whether SOME thread holds the lock at this instant (nothing about threads that have fetched the
+# lock object and are about to take it): an arbitrary boolean
+LOCKT.attrs = {'locked': MethodModel('locked', lambda i, s, a, k: iter([(s, sym.fresh(BOOL, 'lock_is_held_right_now'))]))}
 FLOCKS = sym.DictC(PATHT, LOCKT)
 REFCOUNTS = sym.DictC(PATHT, INT)
 
@@ -715,6 +718,17 @@ def write_ref_post(prop):
             # C09.restore.guarded: the refcount tables are only touched under glock
             bad = [nt for nt in p.notes if nt[0] == 'unguarded']
             res.oblige(p, f'{prop}.write_ref.tables_guarded_by_glock[{sig}]', z3.BoolVal(not bad), meta={'unguarded': [str(x) for x in bad]})
+            # the registration protocol of the per-file locks is an invariant of the two tables: a target has a lock entry iff
+            # its count of registered writers (fetched the lock, not yet through the final section) is present and >= 1.
+            # Two writers of one target therefore always meet on the SAME lock object: an entry is only dropped by the last
+            # registered writer.  (Assumed on entry, re-established on every normal exit.)
+            if p.kind in ('normal', 'return'):
+                h1 = p.st.heap
+                fl, rc = b.st.lookup('flocks'), b.st.lookup('flocks_refcounts')
+                q = z3.Const('wr_q', PATHT.sort())
+                res.oblige(p, f'{prop}.write_ref.lock_entry_iff_registered_writers[{sig}]', z3.ForAll([q], z3.And(
+                    z3.Select(h1.read(FLOCKS, 'has', fl.z), q) == z3.Select(h1.read(REFCOUNTS, 'has', rc.z), q),
+                    z3.Implies(z3.Select(h1.read(REFCOUNTS, 'has', rc.z), q), z3.Select(h1.read(REFCOUNTS, 'val', rc.z), q) >= 1))))
             # every acquired lock is released on every path (normal and exceptional)
             acq = sum(1 for e in p.st.events if e.kind == 'acquire')
             rel = sum(1 for e in p.st.events if e.kind == 'release')
